@@ -495,6 +495,38 @@ func c13Encrypted(c *Ctx) {
 						}
 					}
 				}
+				if !okFlow {
+					// the keyset is produced by a helper applied to the plaintext of that call:
+					// every success return of the helper hands back a keyset it unmarshalled
+					// from its parameter, with the Unmarshal error checked
+					if hc, hi := guard.CallOf(ret.Results[0]); hc != nil && hi == 0 {
+						if h := hc.Call.StaticCallee(); h != nil && h.Blocks != nil && h.Pkg == f.Pkg && len(hc.Call.Args) >= 1 {
+							src, si := guard.CallOf(hc.Call.Args[0])
+							forwardsErr := len(ret.Results) == 2 && func() bool { ec, ei := guard.CallOf(ret.Results[1]); return ec == hc && ei == 1 }()
+							all, some := src == call && si == 0 && forwardsErr, false
+							for _, hr := range guard.SuccessReturns(h) {
+								good := false
+								for _, uc := range callsTo(h, "google.golang.org/protobuf/proto.Unmarshal") {
+									ucc := uc.Common()
+									if guard.Strip(ucc.Args[0]) == ssa.Value(h.Params[0]) && guard.Strip(ucc.Args[1]) == guard.Strip(hr.Results[0]) {
+										for _, fct := range guard.BlockFacts(hr.Block()) {
+											if ec, isNil, ok := guard.ErrNilFact(fct); ok && isNil && ssa.Instruction(ec) == uc {
+												good = true
+											}
+										}
+									}
+								}
+								some = true
+								if !good {
+									all = false
+								}
+							}
+							if all && some {
+								okFlow = true
+							}
+						}
+					}
+				}
 				r.Check(okErr && okFlow, "C13.encrypted", key+"/release", p.Pos(ret.Pos()),
 					"a keyset can be returned without the AEAD's Decrypt having succeeded on the caller's associated data, or it is not the decrypted plaintext",
 					"dominated by err==nil of Decrypt and of proto.Unmarshal(plaintext, keyset)")
